@@ -46,6 +46,11 @@ def pass_ok(ctx, db, fn, key, a_pat, b_pat, what):
 
 
 def run(ctx):
+    _run(ctx)
+    serde_payload(ctx)
+
+
+def _run(ctx):
     db = ctx.db
     ctx.explanation = (
         "Decides structurally: write-through pairing of store writes and cache writes on all Ok paths (8 sites), sibling "
@@ -280,3 +285,118 @@ def run(ctx):
 
 def g_reach(fn, bb):
     return graph(fn).reach([bb])
+
+
+# ------------------------------------------------------------------ the cached JSON is a faithful copy
+# The cache stores an object as its serde JSON and answers queries by deserializing it.  A field that is serialized by
+# a hand-written function (serde `serialize_with`) or a hand-written `Serialize` impl can drop state that direct
+# evaluation keeps.  Each such function on a type reachable from Issue / Patch is listed here with what it needs.
+SERDE_REVIEWED = {
+    "radicle::cob::patch::ser::serialize_reactions":
+        "flattens (location -> set of (author, emoji)) into one element per (location, emoji); an entry whose set is empty has no element, so the "
+        "evaluated state must not keep empty sets (checked: `empty-reactions` rule)",
+}
+SERDE_ROOTS = ("radicle::cob::issue::Issue", "radicle::cob::patch::Patch")
+
+
+def payload_types(db):
+    seen = []
+    todo = list(SERDE_ROOTS)
+    while todo:
+        ty = todo.pop()
+        if ty in seen:
+            continue
+        a = db.adt(ty)
+        if not a:
+            continue
+        seen.append(ty)
+        for v in a.get("variants", []):
+            for f in v.get("fields", []):
+                for m in re.finditer(r"(radicle(?:_\w+)?(?:::\w+)+)", f["ty"]):
+                    if m.group(1) not in seen:
+                        todo.append(m.group(1))
+    return seen
+
+
+def serde_payload(ctx):
+    db = ctx.db
+    tys = payload_types(db)
+    ctx.floor("serde:payload-types", len(tys), 10, "types reachable from the cached Issue / Patch objects")
+    n = 0
+    for ty in sorted(tys):
+        sers = [f for f in db.all_fns() if re.match(r"^<%s(<[^>]*>)? as serde::ser::Serialize>::serialize$" % re.escape(ty), f["key"])]
+        for f in sers:
+            n += 1
+            if "derive(Serialize" not in (f.get("exp") or ""):
+                k = "serde:impl:%s" % cfg.short(ty)
+                # a hand-written impl must write every field of the type (under serde's camelCase name); fields it writes only
+                # conditionally must be Options (absent = None on the way back)
+                a = db.adt(ty)
+                flds = [(x["n"], x["ty"]) for x in a["variants"][0]["fields"]] if a and a.get("variants") else []
+
+                def camel(n_):
+                    parts = n_.split("_")
+                    return parts[0] + "".join(p_.capitalize() for p_ in parts[1:])
+                written = {}
+                g_ = graph(f)
+                for bb, t, c in db.calls(f):
+                    if (c.get("n") or "").endswith("SerializeStruct::serialize_field") and len(t[2]) >= 2:
+                        e_ = peel(expr_operand(f, t[2][1]))
+                        if e_[0] == "const" and "s" in e_[1]:
+                            written[e_[1]["s"]] = bb
+                rets = rules.ret_blocks(f)
+                missing = [n_ for n_, ty_ in flds if camel(n_) not in written]
+                cond = []
+                for n_, ty_ in flds:
+                    bb = written.get(camel(n_))
+                    if bb is not None and not ty_.startswith("core::option::Option<"):
+                        # unconditional: every path to a (non-error) return passes the write
+                        ends = [r_ for r_ in rets if r_ in g_.reach([0], avoid_blocks=[bb])]
+                        oks = [b2 for b2, t2, c2 in db.calls(f) if (c2.get("n") or "").endswith("SerializeStruct::end")]
+                        if oks and any(o in g_.reach([0], avoid_blocks=[bb]) for o in oks):
+                            cond.append(n_)
+                if missing:
+                    ctx.violated(k, "the hand-written Serialize of %s does not write the field(s) %s: the cached JSON loses state that direct evaluation keeps" % (
+                        cfg.short(ty), ", ".join(missing)), rules.where(f), fn=f)
+                elif cond:
+                    ctx.violated(k, "the hand-written Serialize of %s writes the non-optional field(s) %s only on some paths" % (cfg.short(ty), ", ".join(cond)), rules.where(f), fn=f)
+                elif flds:
+                    ctx.held(k, "the hand-written Serialize of %s writes every field (%s); only Option fields are written conditionally" % (
+                        cfg.short(ty), ", ".join(n_ for n_, _ in flds)), rules.where(f), fn=f)
+                else:
+                    ctx.ob(k, "inconclusive", "%s has a hand-written Serialize impl: whether the cached JSON keeps all of its state is not decided" % cfg.short(ty), rules.where(f), fn=f)
+        # serialize_with helpers of the derived impl
+        for f in db.all_fns():
+            if f["key"].startswith("<<%s" % ty) and "as serde::ser::Serialize>::serialize::__SerializeWith" in f["key"]:
+                for bb, t, c in db.calls(f):
+                    nm = c.get("n") or c.get("dn") or ""
+                    if nm.startswith("serde::") or "ops::try_trait" in nm:
+                        continue
+                    n += 1
+                    k = "serde:with:%s:%s" % (cfg.short(ty), cfg.short(nm))
+                    if nm in SERDE_REVIEWED:
+                        ctx.held(k, "field of %s serialized by %s: %s" % (cfg.short(ty), cfg.short(nm), SERDE_REVIEWED[nm]), rules.where(f, bb), fn=f)
+                    else:
+                        ctx.violated(k, "a field of %s (part of the cached Issue/Patch JSON) is serialized by the hand-written %s, which is not reviewed: if it "
+                                        "leaves out state that direct evaluation keeps (redacted slots, empty entries), the cached object differs from "
+                                        "the evaluated one" % (cfg.short(ty), cfg.short(nm)), rules.where(f, bb), fn=f)
+    ctx.ob("serde:payload", "held", "%d Serialize impls / custom field serializers of the cached payload types were looked at" % n, "", sites=n)
+    # empty reaction sets are not kept (needed by serialize_reactions)
+    for key in (r"^<radicle::cob::patch::Patch as radicle::cob::store::CobWithType>::action$", r"^radicle::cob::patch::Patch::action$", r"^radicle::cob::patch::Patch::op_action$"):
+        pass
+    act = [f for f in db.all_fns() if re.search(r"^radicle::cob::patch::Patch::(action|op_action)$", f["key"])]
+    found = False
+    for f in act:
+        g = graph(f)
+        rem = [(bb, t) for bb, t, c in db.calls(f) if (c.get("n") or "").endswith("BTreeSet::remove") and "reactions" in nshow(expr_operand(f, t[2][0]))]
+        for bb, t in rem:
+            found = True
+            # after removing a reaction the (possibly) empty set is dropped from the map on every path
+            drops = [b2 for b2, t2, c2 in db.calls(f) if re.search(r"BTreeMap::(remove|retain)$|Entry::.*remove", c2.get("n") or "") and "reactions" in nshow(expr_operand(f, t2[2][0]))]
+            emp = [b2 for b2, t2, c2 in db.calls(f) if (c2.get("n") or "").endswith("BTreeSet::is_empty") and b2 in g.reach([bb])]
+            ok = bool(drops) and bool(emp) and any(d in g.reach([bb]) for d in drops)
+            ctx.check("empty-reactions:%s" % cfg.short(f["key"]), ok,
+                      "removing a reaction drops the location's entry once its set is empty (the cached JSON has no element for an empty set, so direct "
+                      "evaluation must not keep one either)", rules.where(f, bb), fn=f)
+    if not found:
+        ctx.ob("empty-reactions", "inconclusive", "the place where a revision reaction is removed was not found", "")
